@@ -34,38 +34,51 @@ Theorem C13_parse_print_digits : forall (k : nat) n, 0 <= n < 10 ^ Z.of_nat k ->
   parse_digits k 0 (print_digits k n) = Some (n, []).
 Proof. exact parse_print_digits. Qed.
 
-(* MAIN: isoformat() text read back by fromisoformat() is the same value -- every valid value, any offset *)
-Theorem C13_iso_roundtrip : forall d, valid d -> iso_parse (iso_print d) = Some d.
+(* MAIN: isoformat() text read back by an exact fromisoformat() is the same value -- every valid value, any offset *)
+Theorem C13_iso_roundtrip : forall d, valid d -> iso_parse false (iso_print d) = Some d.
 Proof. exact iso_roundtrip. Qed.
-Theorem C13_iso_roundtrip_space : forall d, valid d -> iso_parse (iso_print_space d) = Some d.
-Proof. exact iso_roundtrip_space. Qed.
-Theorem C13_iso_parse_valid : forall s d, iso_parse s = Some d -> valid d.
+(* The reader that exists (GENERATED probe gen_fromiso_drops_subsecond_offset: CPython's C fromisoformat takes an
+   offset with zero whole seconds to be UTC) reads back every value whose offset is 0 or at least one second ... *)
+Theorem C13_iso_roundtrip_partial : forall d, valid d -> off_exact gen_fromiso_drops_subsecond_offset (off d) = true ->
+  iso_parse gen_fromiso_drops_subsecond_offset (iso_print d) = Some d.
+Proof. exact (iso_roundtrip_q gen_fromiso_drops_subsecond_offset). Qed.
+(* ... and the full statement is FALSE of a reader with that quirk: offset -0.000001 s comes back as UTC *)
+Theorem C13_iso_roundtrip_refuted :
+  let d := mkdt 2000 1 1 0 0 0 0 (Some (-1)) in
+  valid d /\ iso_parse true (iso_print d) = Some (mkdt 2000 1 1 0 0 0 0 (Some 0)) /\ iso_parse false (iso_print d) = Some d.
+Proof. exact iso_roundtrip_quirk_refuted. Qed.
+Theorem C13_iso_roundtrip_space : forall d, valid d -> off_exact gen_fromiso_drops_subsecond_offset (off d) = true ->
+  iso_parse gen_fromiso_drops_subsecond_offset (iso_print_space d) = Some d.
+Proof. exact (iso_roundtrip_space_q gen_fromiso_drops_subsecond_offset). Qed.
+Theorem C13_iso_parse_valid : forall q s d, iso_parse q s = Some d -> valid d.
 Proof. exact iso_parse_valid. Qed.
 
 (* ---- always aware; naive means UTC; the input's offset is kept *)
-Theorem C13_always_aware : forall i d, dt_new gen_new_keeps_fold i = Some d -> aware d.
-Proof. exact (dt_new_aware gen_new_keeps_fold). Qed.
-Theorem C13_naive_means_utc : forall x o0, valid x -> off x = None ->
-  dt_new gen_new_keeps_fold (InObj x o0) = Some (coerce x) /\ off (coerce x) = Some 0 /\ wall (coerce x) = wall x.
-Proof. intros x o0 Hv Hn. split; [exact (dt_new_obj x o0 Hv)|exact (coerce_naive x Hn)]. Qed.
+Theorem C13_always_aware : forall q i d, dt_new q gen_new_keeps_fold i = Some d -> aware d.
+Proof. exact (fun q => dt_new_aware q gen_new_keeps_fold). Qed.
+Theorem C13_naive_means_utc : forall q x o0, valid x -> off x = None ->
+  dt_new q gen_new_keeps_fold (InObj x o0) = Some (coerce x) /\ off (coerce x) = Some 0 /\ wall (coerce x) = wall x.
+Proof. intros q x o0 Hv Hn. split; [exact (dt_new_obj q x o0 Hv)|exact (coerce_naive x Hn)]. Qed.
 (* an aware object -- including a fold=1 value, whose offset differs from the fold=0 answer o0 -- is kept as is *)
-Theorem C13_object_input_keeps_offset : forall x o0, valid x -> aware x ->
-  dt_new gen_new_keeps_fold (InObj x o0) = Some x.
-Proof. intros x o0 Hv Ha. rewrite <- (coerce_aware x Ha) at 2. exact (dt_new_obj x o0 Hv). Qed.
+Theorem C13_object_input_keeps_offset : forall q x o0, valid x -> aware x ->
+  dt_new q gen_new_keeps_fold (InObj x o0) = Some x.
+Proof. intros q x o0 Hv Ha. rewrite <- (coerce_aware x Ha) at 2. exact (dt_new_obj q x o0 Hv). Qed.
 (* ... and that depends on the generated fact: a constructor that does not pass `fold` moves this value by an hour *)
-Theorem C13_refuted_if_fold_dropped :
+Theorem C13_refuted_if_fold_dropped : forall q,
   let x := mkdt 2021 10 31 2 30 0 0 (Some 3600000000) in
-  valid x /\ aware x /\ dt_new false (InObj x (Some 7200000000)) <> Some x
-  /\ dt_new true (InObj x (Some 7200000000)) = Some x.
+  valid x /\ aware x /\ dt_new q false (InObj x (Some 7200000000)) <> Some x
+  /\ dt_new q true (InObj x (Some 7200000000)) = Some x.
 Proof. exact fold_dropped_changes_offset. Qed.
-Theorem C13_text_input : forall d, valid d ->
-  dt_new gen_new_keeps_fold (InText (iso_print d)) = Some (coerce d).
-Proof. exact (dt_new_text gen_new_keeps_fold). Qed.
-Theorem C13_epoch_input : forall n, MIN_MICROS <= n <= MAX_MICROS ->
-  dt_new gen_new_keeps_fold (InEpochMicros n) = Some (from_micros_utc n)
+Theorem C13_text_input : forall d, valid d -> dt_new false gen_new_keeps_fold (InText (iso_print d)) = Some (coerce d).
+Proof. intros d Hv. exact (dt_new_text false gen_new_keeps_fold d Hv (off_exact_false (off d))). Qed.
+Theorem C13_text_input_partial : forall d, valid d -> off_exact gen_fromiso_drops_subsecond_offset (off d) = true ->
+  dt_new gen_fromiso_drops_subsecond_offset gen_new_keeps_fold (InText (iso_print d)) = Some (coerce d).
+Proof. exact (dt_new_text gen_fromiso_drops_subsecond_offset gen_new_keeps_fold). Qed.
+Theorem C13_epoch_input : forall q n, MIN_MICROS <= n <= MAX_MICROS ->
+  dt_new q gen_new_keeps_fold (InEpochMicros n) = Some (from_micros_utc n)
   /\ to_micros (from_micros_utc n) = n /\ off (from_micros_utc n) = Some 0.
 Proof.
-  intros n H. split; [exact (dt_new_epoch gen_new_keeps_fold n H)|].
+  intros q n H. split; [exact (dt_new_epoch q gen_new_keeps_fold n H)|].
   split; [exact (to_micros_from_micros n)|exact (proj2 (proj2 (from_micros_fields n)))].
 Qed.
 Theorem C13_coercion_keeps_instant : forall d, to_micros (coerce d) = to_micros d /\ wall (coerce d) = wall d.
@@ -76,14 +89,36 @@ Theorem C13_tuple_roundtrip : forall d, valid d -> off d = Some 0 -> unpack_tupl
 Proof. exact tuple_roundtrip. Qed.
 Theorem C13_tuple_roundtrip_naive : forall d, valid d -> off d = None -> unpack_tuple (pack_tuple d) = Some (coerce d).
 Proof. exact tuple_roundtrip_naive. Qed.
+(* full strength, for an exact text reader *)
 Theorem C13_stream_json_sqlite_keep_offset : forall k d, valid d -> aware d -> kind_ok k d ->
-  stream_decode (stream_encode gen_pack_rule k d) = Some d
-  /\ obind (text_encode gen_json_datetime_form d) text_wire_decode = Some d
-  /\ obind (text_encode gen_sqlite_datetime_form d) text_wire_decode = Some d.
+  stream_decode false (stream_encode gen_pack_rule k d) = Some d
+  /\ obind (text_encode gen_json_datetime_form d) (text_wire_decode false) = Some d
+  /\ obind (text_encode gen_sqlite_datetime_form d) (text_wire_decode false) = Some d.
 Proof.
-  intros k d Hv Ha Hk. split; [exact (stream_roundtrip gen_pack_rule k d eq_refl Hv Ha Hk)|].
-  split; [exact (text_format_roundtrip _ d eq_refl Hv Ha)|exact (text_format_roundtrip _ d eq_refl Hv Ha)].
+  intros k d Hv Ha Hk. pose proof (off_exact_false (off d)) as Hx.
+  split; [exact (stream_roundtrip false gen_pack_rule k d eq_refl Hv Ha Hk Hx)|].
+  split; [exact (text_format_roundtrip false _ d eq_refl Hv Ha Hx)|exact (text_format_roundtrip false _ d eq_refl Hv Ha Hx)].
 Qed.
+(* for the reader that exists: every value whose offset is 0 or at least one second (all zoneinfo offsets, all
+   offsets with whole seconds) *)
+Theorem C13_stream_json_sqlite_keep_offset_partial : forall k d, valid d -> aware d -> kind_ok k d ->
+  off_exact gen_fromiso_drops_subsecond_offset (off d) = true ->
+  stream_decode gen_fromiso_drops_subsecond_offset (stream_encode gen_pack_rule k d) = Some d
+  /\ obind (text_encode gen_json_datetime_form d) (text_wire_decode gen_fromiso_drops_subsecond_offset) = Some d
+  /\ obind (text_encode gen_sqlite_datetime_form d) (text_wire_decode gen_fromiso_drops_subsecond_offset) = Some d.
+Proof.
+  intros k d Hv Ha Hk Hx. split; [exact (stream_roundtrip _ gen_pack_rule k d eq_refl Hv Ha Hk Hx)|].
+  split; [exact (text_format_roundtrip _ _ d eq_refl Hv Ha Hx)|exact (text_format_roundtrip _ _ d eq_refl Hv Ha Hx)].
+Qed.
+(* with the quirk the full statement is false: offset -0.000001 s comes back as UTC from all three, instant moved *)
+Theorem C13_stream_json_sqlite_refuted :
+  let d := mkdt 2000 1 1 0 0 0 0 (Some (-1)) in
+  let d' := mkdt 2000 1 1 0 0 0 0 (Some 0) in
+  valid d /\ aware d /\ kind_ok KOther d
+  /\ stream_decode true (stream_encode gen_pack_rule KOther d) = Some d'
+  /\ obind (text_encode FormIsoText d) (text_wire_decode true) = Some d'
+  /\ to_micros d' <> to_micros d.
+Proof. exact (formats_quirk_refuted gen_pack_rule eq_refl). Qed.
 
 (* ---- instants: days-from-civil and civil-from-days are inverse for ALL proleptic Gregorian dates (any year) *)
 Theorem C13_civil_days_inverse :
@@ -130,5 +165,6 @@ Example C13_hyp_satisfiable :
   valid (mkdt 1 1 1 0 0 0 0 (Some 50400000000)) /\ valid (mkdt 9999 12 31 23 59 59 999999 (Some (-86399999999)))
   /\ in_utc_range (mkdt 1969 12 31 23 59 59 999999 (Some (-1000000))) = true
   /\ in_utc_range (mkdt 1 1 1 0 0 0 0 (Some 50400000000)) = false
-  /\ kind_ok KOther (mkdt 2021 10 31 2 30 0 0 (Some 3600000000)) /\ kind_ok KEqUTC (mkdt 1970 1 1 0 0 0 0 (Some 0)).
+  /\ kind_ok KOther (mkdt 2021 10 31 2 30 0 0 (Some 3600000000)) /\ kind_ok KEqUTC (mkdt 1970 1 1 0 0 0 0 (Some 0))
+  /\ off_exact true (Some 1172000000) = true /\ off_exact true (Some (-1000000)) = true /\ off_exact true (Some 999999) = false.
 Proof. repeat split; discriminate. Qed.
